@@ -44,6 +44,28 @@ def parse_version_and_revision(version_string):
     return version, revision
 
 
+def canonical_key(version_string):
+    """
+    Return a hashable key for a valid ``version_string`` such that any two
+    versions that vercmp() finds equal have the same key.
+    """
+    version, revision = parse_version_and_revision(version_string)
+    dotted, *suffixes = version.split("_")
+    components = dotted.split(".")
+    letter = ""
+    if components[-1][-1:].isalpha():
+        letter = components[-1][-1]
+        components[-1] = components[-1][:-1]
+    # Components that begin with a "0" are compared as the decimals of a float:
+    # their trailing zeros are not significant.
+    components = [c.rstrip("0") if c.startswith("0") else c for c in components]
+    suffixes = [
+        (match.group(1), int("0" + match.group(2)))
+        for match in map(suffix_regexp.match, suffixes)
+    ]
+    return tuple(components), letter, tuple(suffixes), revision
+
+
 def vercmp(ver1, ver2):
     """
     Compare two versions ``ver1`` and ``ver2`` and return 0, 1, or -1 according
